@@ -93,8 +93,12 @@ void worker_main(int fd) {
   WSlots S;
   FILE *in = fdopen(dup(fd), "r");
   char line[8192];
-  auto reply = [&](const string &r) { string m = r + "\n"; ssize_t w = write(fd, m.data(), m.size()); (void)w; };
-  while (fgets(line, sizeof line, in)) {
+  auto reply = [&](const string &r) { string m = r + "\n"; ssize_t w; do w = write(fd, m.data(), m.size()); while (w < 0 && errno == EINTR); };
+  // a handled signal without SA_RESTART: the coordinator sends SIGUSR1 to a worker that is (supposed to be) blocked in acquire / lock -
+  // a signal is not a unit, the call has to keep waiting
+  { struct sigaction sa; memset(&sa, 0, sizeof sa); sa.sa_handler = [](int) {}; sigemptyset(&sa.sa_mask); sa.sa_flags = 0; sigaction(SIGUSR1, &sa, NULL); }
+  for (;;) {
+    if (!fgets(line, sizeof line, in)) { if (errno == EINTR && !feof(in)) { clearerr(in); continue; } break; }
     auto w = vl::split_ws(line);
     if (w.empty()) continue;
     g_kill_at = 0; g_pause_at = 0;
@@ -262,6 +266,16 @@ struct Coord {
   }
   void send(int i, const string &line) { string m = line + "\n"; ssize_t w = write(ws[(size_t)i].fd, m.data(), m.size()); (void)w; ws[(size_t)i].busy = true; }
   // wait for one line from worker i; returns false on timeout; sets dead on EOF
+  // "must still be blocked" wait: like recv, but the waiting process is poked with a handled signal (no SA_RESTART) at one third and two
+  // thirds of the grace period - an interrupted wait is not a unit
+  bool recv_poked(int i, string &line, int timeout_ms) {
+    int part = std::max(10, timeout_ms / 3);
+    if (recv(i, line, part)) return true;
+    if (!ws[(size_t)i].dead) kill(ws[(size_t)i].pid, SIGUSR1);
+    if (recv(i, line, part)) return true;
+    if (!ws[(size_t)i].dead) kill(ws[(size_t)i].pid, SIGUSR1);
+    return recv(i, line, timeout_ms - 2 * part > 0 ? timeout_ms - 2 * part : part);
+  }
   bool recv(int i, string &line, int timeout_ms) {
     Worker &w = ws[(size_t)i];
     for (;;) {
@@ -402,7 +416,7 @@ Outcome run_c06(const Case &c, bool thorough) {
         if (co.ws[(size_t)other.first].dead) continue;
         co.send(w, "sem_acq " + std::to_string(key.second));
         string r;
-        if (co.recv(w, r, co.grace_ms)) { co.fail("acquire-no-unit", "p_semaphore_acquire returned (" + r + ") although the counter is 0: an acquire must block until a unit is released"); break; }
+        if (co.recv_poked(w, r, co.grace_ms)) { co.fail("acquire-no-unit", "p_semaphore_acquire returned (" + r + ") although the counter is 0 (signals were delivered to the waiting process meanwhile): an acquire must block until a unit is released"); break; }
         string rr = co.call(other.first, "sem_rel " + std::to_string(other.second));
         if (!co.recv(w, r, 10000)) { co.out.inconclusive = true; break; }
         if (r.rfind("true", 0) != 0) { co.fail("acquire", "blocked acquire completed with " + r + " after a release"); break; }
@@ -570,7 +584,7 @@ Outcome run_c07(const Case &c, bool thorough) {
         if (co.ws[(size_t)holder.first].dead) continue;
         co.send(w, "shm_lock " + std::to_string(key.second));
         string r;
-        if (co.recv(w, r, co.grace_ms)) { co.fail("lock-exclusion", "p_shm_lock returned (" + r + ") while another process holds the lock of the same segment"); break; }
+        if (co.recv_poked(w, r, co.grace_ms)) { co.fail("lock-exclusion", "p_shm_lock returned (" + r + ") while another process holds the lock of the same segment (signals were delivered to the waiting process meanwhile)"); break; }
         co.call(holder.first, "shm_unlock " + std::to_string(holder.second));
         if (!co.recv(w, r, 10000)) { co.out.inconclusive = true; break; }
         if (r.rfind("true", 0) != 0) { co.fail("lock", "blocked p_shm_lock completed with " + r); break; }
